@@ -29,7 +29,8 @@ ASSUMPTIONS = [
     "|q - q_ref| <= 2^-22 (an exact float64 implementation also passes)",
     "label thresholds are placed at midpoints between distinct reference q-values or on "
     "exactly representable values, never on float32-ambiguous values",
-    "integer score dtypes are exercised with small magnitudes (|x| <= 8)",
+    "integer score dtypes are exercised with small magnitudes and at both ends of the dtype's range (64-bit: +-(2^53-1), "
+    "the range in which float64 ranking is exact)",
 ]
 
 TOL = 2.0**-22
@@ -84,7 +85,14 @@ def check_one(tdc, ranks, lab, desc, acc, axis="core", score_dtype="float64", la
     """Run the implementation on one case and compare with the reference. Returns q (floats) or None."""
     case = {"ranks": list(ranks), "labels": [int(x) for x in lab], "desc": desc, "axis": axis,
             "score_dtype": score_dtype, "label_dtype": label_dtype, "rescale": rescale, "entry": entry}
-    if score_dtype.startswith("uint"):
+    if axis == "dtype-extreme":
+        # the ends of the dtype's range (minimum, around zero, maximum): rank k -> k-th of these values
+        info = np.iinfo(score_dtype)
+        if info.bits == 64:  # integers are ranked as float64: exact up to 2**53
+            info = type("I", (), {"min": -(2**53 - 1), "max": 2**53 - 1})
+        ladder = sorted({info.min, info.min + 1, -1 if info.min < 0 else 1, 0, 2, info.max - 1, info.max} - ({-1} if info.min == 0 else set()))
+        s = np.array([ladder[r] for r in ranks], dtype=score_dtype)
+    elif score_dtype.startswith("uint"):
         s = np.array(ranks, dtype=score_dtype)
     elif score_dtype.startswith("int"):
         s = (np.array(ranks) - 2).astype(score_dtype)
@@ -164,6 +172,9 @@ def worker(item):
                                 continue
                             check_one(mq.tdc, ranks, lab, desc, acc, axis="dtype", score_dtype=sd, label_dtype=ld)
                             acc.count("dtype_cases")
+                    for sd in ("int8", "int16", "int32", "int64", "uint8"):
+                        check_one(mq.tdc, ranks, lab, desc, acc, axis="dtype-extreme", score_dtype=sd)
+                        acc.count("dtype_extreme_cases")
                     for rs in RESCALE:
                         q2 = check_one(mq.tdc, ranks, lab, desc, acc, axis="rescale", rescale=rs)
                         acc.count("rescale_cases")
@@ -212,6 +223,47 @@ def worker(item):
     return acc
 
 
+def boundary_worker(item):
+    """Large designed vectors (one tie group of T targets and D decoys => q = (D+1)/T for every PSM) that put the
+    q-value just above, exactly on, or just below the label threshold - margins far wider than float32 rounding but
+    inside the 1e-5 relative band a sloppy closeness test would accept."""
+    from mokapot.dataset import _update_labels
+
+    acc = Acc()
+    thr, T, D, expect_pos = item
+    lab = np.r_[np.ones(T, dtype=bool), np.zeros(D, dtype=bool)]
+    for desc in (True, False):
+        got = np.asarray(_update_labels(np.zeros(T + D), lab, eval_fdr=thr, desc=desc))
+        want_t = 1 if expect_pos else 0
+        case = {"axis": "boundary", "thr": thr, "targets": T, "decoys": D, "desc": desc}
+        ok = bool(np.all(got[:T] == want_t) and np.all(got[T:] == -1))
+        acc.case(key=(thr, T, D, desc), nontrivial=True, outcome=(int(got[0]), int(got[-1])), sample=case if desc else None)
+        acc.count("boundary_cases")
+        if not ok:
+            acc.violation(Violation("labels-boundary", f"q = (D+1)/T = {(D + 1) / T!r} with threshold {thr}: targets labelled "
+                                    f"{sorted(set(got[:T].tolist()))}, expected {want_t}", case))
+    return acc
+
+
+def boundary_items():
+    out = []
+    for thr in (0.01, 0.05, 0.1):
+        # smallest T with a ratio (D+1)/T in (thr, thr*(1+1e-5)] resp. [thr*(1-1e-5), thr)
+        for above in (True, False):
+            T = 1000
+            while True:
+                k = int(thr * T) + (1 if above else 0)  # k = D+1
+                r = k / T
+                if k >= 1 and ((thr < r <= thr * (1 + 8e-6)) if above else (thr * (1 - 8e-6) <= r < thr)):
+                    out.append((thr, T, k - 1, not above))
+                    break
+                T += 1
+                if T > 400000:
+                    break
+    out += [(0.25, 8, 1, True), (0.5, 4, 1, True), (0.125, 16, 1, True)]  # exactly on an exactly representable threshold
+    return out
+
+
 def run(ctx):
     if ctx.quick:
         nmax, opts = 6, dict(n_entry=6, n_dtype=4, n_labels=5, n_linear=3)
@@ -224,6 +276,7 @@ def run(ctx):
         for prefix in itertools.product(range(n), repeat=p):
             items.append((n, prefix, opts))
     ctx.pmap(worker, items, chunksize=1)
+    ctx.pmap(boundary_worker, boundary_items())
     ctx.exhaustive = True
     ctx.info["bound"] = {"n_max_complete": nmax, **opts}
     ctx.info["explanation"] = (
@@ -237,8 +290,14 @@ def replay(case):
     from mokapot.dataset import _update_labels
 
     acc = Acc()
-    ranks, lab, desc = tuple(case["ranks"]), tuple(case["labels"]), case["desc"]
     axis = case.get("axis", "core")
+    if axis == "boundary":
+        a = boundary_worker((case["thr"], case["targets"], case["decoys"], (case["decoys"] + 1) / case["targets"] <= case["thr"]))
+        return a.violations
+    ranks, lab, desc = tuple(case["ranks"]), tuple(case["labels"]), case["desc"]
+    if axis == "boundary":
+        a = boundary_worker((case["thr"], case["targets"], case["decoys"], (case["decoys"] + 1) / case["targets"] <= case["thr"]))
+        return a.violations
     if axis in ("labels", "linlabels"):
         tn, td = case["thr"]
         want = ref_labels(ranks, lab, tn, td, desc)
